@@ -87,6 +87,8 @@ def build_column(col):
         return arr
     if dtype == "bool":
         return np.array(vals, bool)
+    if dtype == "object":
+        return np.array(list(vals) + [None], object)[:-1]
     return np.array(vals, dtype)
 
 
